@@ -152,8 +152,10 @@ def domain(X):
 
 def tol(X):
     """'to the microsecond' for a fractional time given as a double: strictly less than one
-    microsecond plus the resolution of the double itself"""
-    return Fraction(1, 10 ** 6) + 2 * Fraction(math.ulp(float(X)))
+    microsecond plus the resolution of the double itself, plus one nanosecond for the doubles the
+    interpreter computes on the way (the seconds field of a broken-down time is a double near
+    60, resolution 7e-15 s, whatever the magnitude of the epoch)"""
+    return Fraction(1, 10 ** 6) + 2 * Fraction(math.ulp(float(X))) + Fraction(1, 10 ** 9)
 
 
 def numval(v):
@@ -1251,7 +1253,7 @@ def main():
         "the driver's days-from-civil / civil-from-days (cross-checked against Python datetime for years 1..9999 at "
         "start-up) is the proleptic Gregorian calendar also for years <= 0",
         "typed injection through jaqmon's codec builds the intended number representation",
-        "'to the microsecond' is read as: differs from the input time by less than 1 us plus two ulps of the input double",
+        "'to the microsecond' is read as: differs from the input time by less than 1 us (+ two ulps of the input double + 1 ns of floating-point slack)",
         "TZ=UTC is pinned by the client; other zones are not exercised",
     ])
 
